@@ -98,17 +98,17 @@ def check(ctx, pid, theorems, props_module, nquick=144, nthorough=2400, extra_mo
         for v in gv[:1]:
             viol.append(dict(oracle="acts-on flags", detail="step %s: %s" % (v["step"], v["what"]), scenario=gridcheck.scenario_of(gkeep, v["case"]), case=v["case"]))
         shutil.rmtree(gkeep, ignore_errors=True)
-    if pid in ("C04", "C10") and ok:
+    if pid in ("C04", "C10", "C07") and ok:
         # pair modules outside the exact model (FDPD, LJ, ThermostatPetersIso): implementation-side oracle only
         pm = None
         try:
-            p2 = subprocess.run([sys.executable, os.path.join(common.VERIF, "sim", "oracle_pairmods.py"), str(ctx.seed), str(24 if not ctx.thorough else 400), "--sympler", common.sympler()],
+            p2 = subprocess.run([sys.executable, os.path.join(common.VERIF, "sim", "oracle_pairmods.py"), str(ctx.seed), str(96 if not ctx.thorough else 800), "--sympler", common.sympler()],
                                 stdout=subprocess.PIPE, stderr=subprocess.PIPE, text=True, timeout=7200)
             pm = json.loads(p2.stdout)
         except Exception as ex:
             pm = {"cases": 0, "violations": [], "error": repr(ex)}
-        pmv = [v for v in pm.get("violations", []) if (v["oracle"] == "frozen" or pid == "C04")]
-        ctx.oblige("oracle on real runs with FDPD / LJ / ThermostatPetersIso (frozen particles untouched%s; %d scenarios, %d with frozen particles, kinds %s)"
+        pmv = [v for v in pm.get("violations", []) if (v["oracle"] == "frozen" and pid != "C07") or pid == "C04" or (pid == "C07" and v["oracle"] == "own-cutoff")]
+        ctx.oblige("oracle on real runs with FDPD / LJ / ThermostatPetersIso / ThermostatLA / kernel density (frozen particles untouched%s; partners beyond a module's own cutoff but inside the list cutoff contribute nothing; %d scenarios, %d with frozen particles, kinds %s)"
                    % (", total momentum constant when all are free" if pid == "C04" else "", pm.get("cases", 0), pm.get("with_frozen", 0), pm.get("kinds")),
                    pm.get("cases", 0) > 0 and not pmv, str([dict(oracle=v["oracle"], detail=v["detail"], kinds=v["kinds"]) for v in pmv[:2]])[:400])
         for v in pmv[:1]:
